@@ -8,6 +8,8 @@ package memberlist
 
 import (
 	"bytes"
+	"os"
+	"syscall"
 	"fmt"
 	"io"
 	"log"
@@ -48,6 +50,8 @@ type vkNet struct {
 	keys   [][]byte
 	pkts   int
 	tapOn  bool
+	// writes to a crashed host return an error
+	unreach bool
 }
 
 type vkTr struct {
@@ -172,6 +176,7 @@ func (t *vkTr) WriteToAddress(b []byte, a Address) (time.Time, error) {
 	m := n.nodes[t.id]
 	lat := time.Duration(1+n.r.n(int(n.maxLat/time.Microsecond))) * time.Microsecond
 	drop := dest == nil || n.blocked(t.id, dest.id) || (n.loss > 0 && n.r.n(100) < n.loss)
+	unreach := n.unreach && dest != nil && dest.down
 	dup := n.dup > 0 && n.r.n(100) < n.dup
 	lat2 := time.Duration(1+n.r.n(int(n.maxLat/time.Microsecond))) * time.Microsecond
 	n.mu.Unlock()
@@ -188,6 +193,9 @@ func (t *vkTr) WriteToAddress(b []byte, a Address) (time.Time, error) {
 		n.mu.Lock()
 		n.logEv(row...)
 		n.mu.Unlock()
+	}
+	if unreach {
+		return now, &net.OpError{Op: "write", Net: "udp", Addr: &net.UDPAddr{IP: dest.ip, Port: 7946}, Err: os.NewSyscallError("sendto", syscall.EHOSTUNREACH)}
 	}
 	if drop {
 		return now, nil
@@ -402,7 +410,9 @@ const (
 	vkLabel  = 8
 	// gossip once per probe interval, push/pull just as often: state exchanges overtake gossip
 	vkSlowGossip = 16
-	vkMax        = 32
+	// a datagram to a crashed host fails at the sender with "no route to host" instead of vanishing
+	vkUnreach = 32
+	vkMax     = 32
 )
 
 type vkSim struct {
@@ -557,6 +567,7 @@ func vkRun(t *testing.T, c *vfCase, st *vfStats) {
 	if c.Cfg[5]&vkLabel != 0 {
 		vn.label = "vk"
 	}
+	vn.unreach = c.Cfg[5]&vkUnreach != 0
 	s := &vkSim{t: t, c: c, vn: vn, N: N, pi: pi, ms: make([]*Memberlist, vkMax), dels: make([]*vkDel, vkMax), gen: make([]int64, vkMax), live: make([]bool, vkMax), left: make([]bool, vkMax)}
 	for _, op := range c.Ops {
 		time.Sleep(time.Duration(op[0]) * time.Millisecond)
@@ -705,7 +716,7 @@ func vkRun(t *testing.T, c *vfCase, st *vfStats) {
 func vkCfg(r *vfRng, kind int, N int) []int64 {
 	pi := int64([]int{200, 1000}[r.n(2)])
 	ptdiv := int64(2 + r.n(3))
-	flags := int64(r.n(32))
+	flags := int64(r.n(64))
 	awmax := int64([]int{8, 4}[r.n(2)])
 	smm := int64([]int{6, 3}[r.n(2)])
 	cfg := []int64{int64(kind), int64(N), pi, ptdiv, int64(r.n(4)), flags, awmax, smm, int64(r.n(1 << 30))}
